@@ -180,3 +180,7 @@ def replay(case):
 def main(ctx, t0):
     acc = core.run_units(units(ctx), run_unit, ctx)
     return core.finish(PID, ctx, LEVEL, acc, RULE, {"exhaustive": True, "plan": [f"{a}/{b}/{c}/players={d}" for a, b, c, d in plan(ctx)]}, ASSUMPTIONS, t0)
+
+
+def replay_unit(unit, ctx):
+    return run_unit(unit, ctx)
